@@ -1,7 +1,9 @@
 (* C08 — every Merkle proof served verifies against the root it was asked for. Generic in the hash. *)
-From Coq Require Import Arith List Bool.
-From Verif Require Import Model.Merkle Model.MerkleSpec Proofs.Frontier Proofs.Rht Proofs.Sparse.
+From Coq Require Import Arith NArith List Bool.
+From Verif Require Import Model.Merkle Model.MerkleSpec Model.TreeStore Proofs.Frontier Proofs.Rht Proofs.Sparse
+  Proofs.TreeStoreProofs Proofs.TreeStoreCorollaries.
 Import ListNotations.
+Local Close Scope N_scope.
 
 Section Generic.
 Context {hash : Type}.
@@ -24,15 +26,15 @@ Proof. intros zh. exact (swalk_eq_walk zh). Qed.
 (* append-only trees: for every recorded version n (closed store) and every covered index j < n, the path IS present,
    the leaf reached is the true j-th leaf, and the proof verifies against the version's root *)
 Theorem C08_append_proof_verifies : forall f (m : rht) n H j,
-  WF node m -> Closed node z0 f m n -> j < n -> j < 2 ^ H ->
+  WF node m -> Closed node z0 f H m n -> j < n -> j < 2 ^ H ->
   exists s, walk m H (mroot node z0 f H n) (Nat.testbit j) = Some (s, f j) /\ calc node 0 s (f j) (Nat.testbit j) = mroot node z0 f H n.
 Proof. intros f. exact (proof_verifies node z0 f). Qed.
 (* closure is maintained by appends; older versions stay closed because inserts never overwrite *)
 Theorem C08_append_keeps_closed : (forall a b c d, node a b = node c d -> a = c /\ b = d) ->
-  forall f (heq_dec : forall a b : hash, {a = b} + {a <> b}) (m : rht) i H, WF node m -> Closed node z0 f m i -> i < 2 ^ H ->
-  (forall h k, H <= h -> k * 2 ^ S h < S i -> False) -> Closed node z0 f (ins_path node z0 f heq_dec m i H) (S i).
+  forall f (heq_dec : forall a b : hash, {a = b} + {a <> b}) (m : rht) i H, WF node m -> Closed node z0 f H m i -> i < 2 ^ H ->
+  Closed node z0 f H (ins_path node z0 f heq_dec m i H) (S i).
 Proof. intros inj f heq_dec. exact (append_keeps_closed node z0 f heq_dec inj). Qed.
-Theorem C08_older_versions_stay_closed : forall f (heq_dec : forall a b : hash, {a = b} + {a <> b}) (m : rht) n k v, Closed node z0 f m n -> Closed node z0 f (ins heq_dec m k v) n.
+Theorem C08_older_versions_stay_closed : forall f (heq_dec : forall a b : hash, {a = b} + {a <> b}) H (m : rht) n k v, Closed node z0 f H m n -> Closed node z0 f H (ins heq_dec m k v) n.
 Proof. intros f heq_dec. exact (Closed_ins node z0 f heq_dec). Qed.
 
 (* updatable (rollup exit) tree: for every closed version g and EVERY position j, written or not, the proof returned
@@ -43,7 +45,35 @@ Theorem C08_updatable_proof_verifies : (forall a b c d, node a b = node c d -> a
 Proof. intros inj. exact (sverify node z0 inj). Qed.
 End Generic.
 
+
+(* ================= store level: every reachable state of the (generic) executable tree store =================
+   `Reach HT node zhf db mem L`: the store (root table, node table, in-memory frontier) is reachable from the empty one by
+   successful appends of the next index, appends with a wrong index, appends abandoned after the hashing loop (storage fault),
+   memory invalidations with arbitrary cache content (restart, rollback callback, reorg) and Tree.Reorg; L is the surviving
+   history (leaf, block, position). The executable model (compared with the Go code on every run) is the instance
+   HT := 32, node := Keccak-256, zhf := the precomputed zero table (zero_table_is_zero). Hypothesis: node injective. *)
+Section Store.
+Variable HT : nat.
+Variable node : N -> N -> N.
+Hypothesis node_inj : forall a b c d, node a b = node c d -> a = c /\ b = d.
+Variable zhf : nat -> N.
+Hypothesis Hzh : forall h, h <= HT -> zhf h = zero node 0%N h.
+(* C08 for the append-only store: in EVERY reachable state (after any reorgs, restarts, aborted appends), for every recorded
+   version k (root = mroot of the first k surviving leaves, historical ones included) and every covered index j < k:
+   GetProof returns HT siblings, found without the zero-hash fallback, which hash with the true j-th leaf to exactly that
+   root; GetLeaf returns the value written at j. The siblings are a function of the surviving leaves only. *)
+Theorem C08_store_proof_verifies : forall db mem L k j, Reach HT node zhf db mem L -> j < k -> k <= length L ->
+  let root := mroot node 0%N (lf L) HT k in
+  let s := Gen.get_proof HT zhf db (N.of_nat j) root in
+  s = sibs node 0%N (lf L) HT j k /\ length s = HT /\
+  Gen.calculate_root node (lf L j) s (N.of_nat j) = root /\
+  Gen.get_leaf HT db (N.of_nat j) root = Some (lf L j) /\
+  Gen.get_proof_used_zero HT db (N.of_nat j) root = false.
+Proof. exact (store_proof_verifies HT node node_inj zhf Hzh). Qed.
+End Store.
+
 Print Assumptions C08_wf_preserved_by_insert.
+Print Assumptions C08_store_proof_verifies.
 Print Assumptions C08_proof_verifies_wf.
 Print Assumptions C08_getproof_is_walk.
 Print Assumptions C08_append_proof_verifies.
